@@ -224,6 +224,8 @@ class World:
 
     def ext_delete(self, s: str, x: str):
         p = self.obj_path(s, x)
+        if not os.path.lexists(p):
+            return  # the code under test left the store otherwise than the history expects: the trace validation says so
         os.chmod(p, 0o644)
         os.unlink(p)
 
